@@ -88,6 +88,17 @@ func c02Full(archs []wsp.Arch) func(AState) []AOp {
 				}
 				ops = append(ops, op)
 			}
+			// a batch whose LAST point is dated ahead of the clock (a sender with a fast clock): the earlier points are
+			// stored and every coarser slot covering them is recomputed all the same
+			st1 := int64(a.Step)
+			for _, fut := range []int64{-1, -st1, -(a.Ret() - st1)} {
+				if fut < 0 && -fut < a.Ret() {
+					ops = append(ops, AOp{Kind: "WB", Arch: i, Ages: []int64{st1, 0, fut}, Vals: []float64{1, 4, -2}})
+					if i == 0 {
+						ops = append(ops, AOp{Kind: "WB", Arch: -1, Ages: []int64{st1, 0, fut}, Vals: []float64{1, 4, -2}})
+					}
+				}
+			}
 			ops = append(ops, denseBatch(a, i))
 			d := denseBatch(a, i) // dense with every slot supplied twice
 			dd := AOp{Kind: "WB", Arch: i}
